@@ -1862,9 +1862,20 @@ func requiredLandmarkAlternativeMatch(input []rune, start, endAt int, alt syntax
 		return requiredLandmarkMatch{}, false
 	}
 
-	if alt.RequireWhitespaceAfter &&
-		(end >= endAt || alt.TrailingWhitespaceSet == nil || !alt.TrailingWhitespaceSet.CharIn(input[end])) {
-		return requiredLandmarkMatch{}, false
+	if alt.RequireWhitespaceAfter {
+		// A set landmark may give characters back, so the whitespace can follow any run of at
+		// least MinRepeat characters, not only the longest one.
+		shortest := end
+		if len(alt.Literal) == 0 {
+			shortest = start + alt.MinRepeat
+		}
+		found := false
+		for e := shortest; e <= end && e < endAt && !found; e++ {
+			found = alt.TrailingWhitespaceSet != nil && alt.TrailingWhitespaceSet.CharIn(input[e])
+		}
+		if !found {
+			return requiredLandmarkMatch{}, false
+		}
 	}
 
 	matchStart := start
